@@ -48,9 +48,12 @@ let eval (input : Sx.t) (obs : Sx.t) : Sx.t list * bool * bool * string =
         let fs = List.map (fun f -> match Sx.args f with
           | [t; tg] -> (nat_of_int (Sx.int_of t), Sx.atom tg = "1") | _ -> failwith "field") (Sx.args fields) in
         let ob_sets = (match Sx.tag o with "aok" | "aerr" -> List.map (fun f -> match Sx.args f with [k; v] -> (Sx.int_of k, Sx.int_of v) | _ -> (-1, -1)) (Sx.args (Sx.field "sets" o)) | _ -> []) in
-        let show sets = Sx.L (Sx.A "sets" :: List.map (fun (k, adm) ->
+        (* a field set to a typed nil pointer (value 0) cannot be told from a field that was not set: it is left out
+           on both sides *)
+        let show sets = Sx.L (Sx.A "sets" :: List.filter_map (fun (k, adm) ->
           let k = int_of_nat k and adm = List.map int_of_nat adm in
-          Sx.L [Sx.A "f"; sx_int k; sx_int (pick adm (try List.assoc k ob_sets with Not_found -> -998))]) sets) in
+          let v = pick adm (try List.assoc k ob_sets with Not_found -> (if List.mem 0 adm then 0 else -998)) in
+          if v = 0 then None else Some (Sx.L [Sx.A "f"; sx_int k; sx_int v])) sets) in
         (match apply_fields is_iface implements (chain (Sx.int_of i)) Datatypes.O fs with
          | AOk sets -> Sx.L [Sx.A "aok"; show sets]
          | AError (sets, t) -> Sx.L [Sx.A "aerr"; sx_int (int_of_nat t); show sets])
